@@ -19,6 +19,7 @@ import (
 	"github.com/valinurovam/garagemq/pool"
 	"github.com/valinurovam/garagemq/qos"
 	"github.com/valinurovam/garagemq/queue"
+	"github.com/valinurovam/garagemq/verifhook"
 )
 
 const (
@@ -149,6 +150,7 @@ func (channel *Channel) handleIncoming() {
 				// channel.incoming closed by connection
 				return
 			}
+			verifhook.Enter("channel.frame")
 
 			switch frame.Type {
 			case amqp.FrameMethod:
@@ -172,6 +174,8 @@ func (channel *Channel) handleIncoming() {
 					channel.sendError(err)
 				}
 			}
+			verifhook.CountKey("conn.handled", channel.conn.id)
+			verifhook.Exit("channel.frame")
 		}
 	}
 }
@@ -304,6 +308,7 @@ func (channel *Channel) handleContentBody(bodyFrame *amqp.Frame) *amqp.Error {
 		}
 
 		qu.Push(message)
+		verifhook.At("publish.betweenQueues")
 
 		ex.GetMetrics().MsgOut.Counter.Inc(1)
 
@@ -346,6 +351,7 @@ func (channel *Channel) sendOutgoing(frame *amqp.Frame) {
 // SendContent send message to consumers or returns to publishers
 func (channel *Channel) SendContent(method amqp.Method, message *amqp.Message) *amqp.Error {
 	channel.SendMethod(method)
+	verifhook.At("send.afterMethod")
 
 	var rawHeader = channel.bufferPool.Get()
 	if err := amqp.WriteContentHeader(rawHeader, message.Header, channel.server.protoVersion); err != nil {
@@ -359,6 +365,7 @@ func (channel *Channel) SendContent(method amqp.Method, message *amqp.Message) *
 	channel.sendOutgoing(&amqp.Frame{Type: byte(amqp.FrameHeader), ChannelID: channel.id, Payload: payload, CloseAfter: false})
 
 	for _, payload := range message.Body {
+		verifhook.At("send.beforeBody")
 		payload.ChannelID = channel.id
 		channel.sendOutgoing(payload)
 	}
@@ -390,10 +397,12 @@ func (channel *Channel) sendConfirms() {
 		if channel.status == channelClosed {
 			return
 		}
+		verifhook.Enter("channel.confirmtick")
 		channel.confirmLock.Lock()
 		currentConfirms := channel.confirmQueue
 		channel.confirmQueue = make([]*amqp.ConfirmMeta, 0)
 		channel.confirmLock.Unlock()
+		verifhook.At("confirmtick.afterSwap")
 
 		for _, confirm := range currentConfirms {
 			channel.SendMethod(&amqp.BasicAck{
@@ -403,6 +412,7 @@ func (channel *Channel) sendConfirms() {
 			channel.server.GetMetrics().Confirm.Counter.Inc(1)
 			channel.metrics.Confirm.Counter.Inc(1)
 		}
+		verifhook.Exit("channel.confirmtick")
 	}
 }
 
@@ -636,6 +646,7 @@ func (channel *Channel) getConsumerByTag(cTag string) *consumer.Consumer {
 func (channel *Channel) decQosAndConsumeNext(unackedMessage *UnackedMessage) {
 	if cmr := channel.getConsumerByTag(unackedMessage.cTag); cmr != nil {
 		cmr.Consume()
+		verifhook.At("settle.betweenSignalAndRelease")
 
 		for _, amqpQos := range cmr.Qos() {
 			amqpQos.Dec(1, uint32(unackedMessage.msg.BodySize))
